@@ -48,7 +48,8 @@ const (
 
 // Sim is one simulated run.
 type Sim struct {
-	C *Choices
+	StarveFn func(site string, key uint64) bool
+	C        *Choices
 
 	mu       sync.Mutex
 	parked   []*waiter
@@ -318,6 +319,9 @@ func (s *Sim) choosePolicy() {
 // SetStarve makes tasks whose site has the given prefix run only when nothing else can.
 func (s *Sim) SetStarve(prefix string) { s.starve = prefix }
 
+// StarveFn, if set, marks tasks (by the site and key of their current scheduling point) that run only
+// when nothing else can: an adversarial "slow component" policy, e.g. the fetch of one particular key.
+
 func (s *Sim) enabled() []*waiter {
 	s.mu.Lock()
 	ws := make([]*waiter, 0, len(s.parked))
@@ -462,11 +466,12 @@ func (s *Sim) pick(ws []*waiter, withClock bool) int {
 	if total == 1 {
 		return 0
 	}
-	if s.starve != "" {
+	if s.starve != "" || s.StarveFn != nil {
 		// candidates = non-starved ones if any
 		var idx []int
 		for i, w := range ws {
-			if !strings.HasPrefix(w.site, s.starve) {
+			starved := (s.starve != "" && strings.HasPrefix(w.site, s.starve)) || (s.StarveFn != nil && s.StarveFn(w.site, w.key))
+			if !starved {
 				idx = append(idx, i)
 			}
 		}
